@@ -22,7 +22,7 @@ SUBJECTS = sorted(set([''.join(t) for n in range(0, 3) for t in itertools.produc
                       ['aab', 'abb', 'ab5', 'aa5b', '٣', 'é', '^', '$', 'a\nb', ']', '[', '.', ' ', 'aaa', 'bab', 'a.', '55', 'a-c', '_', '+', '\xa0', 'a_']))
 FLAVOURS = [('xsd', '1.0'), ('xsd', '1.1'), ('xpath2', '1.0'), ('xpath3', '1.1')]
 CORPUS = ['a', 'a+', 'a*b', '(a|b)+5', 'a.b', '^a', 'b$', '^a.b$', '[a-c]+', '[^a]', '\\d+', '\\w+', '\\s', '(a)(b)?', '(a+)\\1', 'a|ab', 'a+?', 'a*?b', '(?:ab)+', 'a b', 'A', '[A-C]', 'ab|b5',
-          '.', '.+', '^', '$', '^$', '\\p{Lu}', 'a{2}', '(a|ab)(c|bcd)?', '-', 'a\\.b', '\\n', '.*b']
+          '.', '.+', '^', '$', '^$', '\\p{Lu}', 'a{2}', '(a|ab)(c|bcd)?', '-', 'a\\.b', '\\n', '.*b', '((b)|(a))', '(a(b)?)+', '<', '&']
 FLAGSETS = ['', 's', 'm', 'i', 'x', 'q', 'sm', 'mi', 'si', 'smi', 'ix', 'sx']
 
 
@@ -38,6 +38,7 @@ def plan(tier, seed):
         for i in range(len(CLASS_TOKENS)):
             units.append({'kind': 'classes', 'flavour': fl, 'ver': ver, 'first': i, 'len': CL})
     for fl in ('xpath2', 'xpath3'):
+        units.append({'kind': 'backrefs', 'flavour': fl})
         units.append({'kind': 'flags', 'flavour': fl})
         units.append({'kind': 'functions', 'flavour': fl})
     return {
@@ -324,7 +325,7 @@ def run_functions(unit, tier, acc):
             return ('err', (e.code or '').split(':')[-1])
         except Exception as e:  # noqa
             return ('escape', type(e).__name__ + ': ' + str(e)[:60])
-    subjects = SUBJECTS + ['banana', 'a5a5', 'abab', 'aXbXc', 'a\nb\na']
+    subjects = SUBJECTS + ['banana', 'a5a5', 'abab', 'aXbXc', 'a\nb\na', 'a<b', 'a&b', '<a>', '&amp;', 'a]]>b']
     for pat in CORPUS:
         ref = ref_compile(fl, pat)
         if ref[0] != 'ok':
@@ -332,7 +333,7 @@ def run_functions(unit, tier, acc):
         tree = ref[1]
         matches_empty = X.fullmatch(tree, '')
         for s in subjects:
-            if re.search(r'\\[wWsS]', pat) and any(c in s for c in '_+$^\xa0'):
+            if re.search(r'\\[wWsS]', pat) and any(c in s for c in '_+$^\xa0<>=|~`'):
                 continue          # bare \w and \s follow Python's definition: see the known deviation of the language units
             acc.case(True)
             case = {'kind': 'functions', 'flavour': fl, 'pattern': pat, 'subject': s}
@@ -383,9 +384,25 @@ def run_functions(unit, tier, acc):
                 want_nonm = '|'.join(x for x in parts if x != '')
                 want_mat = '|'.join(s[b:e] for b, e in spans)
                 if whole != s or nonm != want_nonm or mat != want_mat:
-                    acc.violation('C12|functions|%s|analyze-string|%s' % (fl, pattern_class(pat)), 'analyze-string(%r, %r)' % (s, pat),
+                    nested = re.search(r'\((?!\?)[^)]*\((?!\?)', pat) is not None
+                    acc.violation('C12|functions|%s|analyze-string|%s' % (fl, 'nested-capturing-groups' if nested else pattern_class(pat)), 'analyze-string(%r, %r)' % (s, pat),
                                   {'expected': [s, want_nonm, want_mat], 'observed': [whole, nonm, mat, kinds]}, case)
     acc.sample({'flavour': fl, 'expression': 'tokenize("banana", "a")', 'expected': ['b', 'n', 'n', '']})
+
+
+def run_backrefs(unit, tier, acc):
+    """n capturing groups (n = 1..12, also nested) followed by every one- and two-digit back-reference"""
+    fl = unit['flavour']
+    ver = '1.0' if fl == 'xpath2' else '1.1'
+    letters = 'abcdefghijkl'
+    for n in range(1, 13):
+        groups = ''.join('(%s)' % ch for ch in letters[:n])
+        nested = '(' * n + 'a' + ')' * n
+        for k in list(range(1, 14)) + [20, 21, 99]:
+            for pat, base in (('^' + groups + '\\%d$' % k, letters[:n]), ('^' + nested + '\\%d$' % k, 'a')):
+                subjects = [base + c for c in letters[:n] + '0123'] + [base + c + d for c in letters[:min(n, 3)] for d in '0123'] + [base, base + base]
+                check_pattern(fl, ver, pat, subjects, acc, 'backrefs')
+    acc.sample({'flavour': fl, 'pattern': '^(a)(b)(c)(d)(e)(f)(g)(h)(i)(j)\\10$', 'subject': 'abcdefghijj', 'expected': True})
 
 
 def run_unit(unit, tier, acc):
@@ -398,6 +415,8 @@ def run_unit(unit, tier, acc):
         run_classes(unit, tier, acc)
     elif k == 'flags':
         run_flags(unit, tier, acc)
+    elif k == 'backrefs':
+        run_backrefs(unit, tier, acc)
     else:
         run_functions(unit, tier, acc)
 
